@@ -266,6 +266,12 @@ def check(run, M, tier):
             continue
         f, s = apply_signatures(alg, c)
         sigs[c.name] = (f, s, main_signature(s))
+        if sigs[c.name][2] != "identity":
+            for conds_, sg_, _kw in s:
+                if sg_ == "identity" and c.name != "Multiply":
+                    run.bad("A2", c.qual, f.loc(), "%s._apply returns its input unchanged under [%s] while its adjoint partner does not know that shortcut: on those inputs the "
+                            "operator acts as the identity although its advertised action (and its adjoint) is %s" % (c.name, cond_text(list(conds_))[:120], sigs[c.name][2]),
+                            stmt="A2:shortcut:" + c.name)
     run.count("classes", len(classes))
 
     for c in classes:
